@@ -55,7 +55,7 @@ class Ctx:
         self.violations = []
         self.c = {k: 0 for k in REQUIRED}
         self.c.update({"max_dev_over_tol": 0.0, "by_kernel": {}, "sanitizer_report_blocks": 0, "skipped_out_of_domain": 0,
-                       "tsan_reports": 0, "caller_mismatches": 0})
+                       "tsan_reports": 0, "caller_mismatches": 0, "tsan_batched_bwd_elements": 0, "batch_mismatches": 0})
         self.classes = set()
         self.samples = []
         self.obs = set()
@@ -537,6 +537,36 @@ def write_driver_cases(path, rng, count, meta=None):
             if meta is not None:
                 meta.append({"kind": k, "prec": "f" if it % 5 == 0 and k != "grad" else "d", "A": A, "rows": rows.copy(), "cols": np.asarray(c_use).copy()})
             n_cases += 1
+    # batched XLA-FFI backward handler (src/jax_perm/jax_perm_core.cpp: `omp parallel for` over the
+    # batch, each element calling grad_perm, itself parallel) and the unbatched FFI forward handler
+    for it in range(max(2, count // 12)):
+        n = int(rng.integers(1, 4))
+        batch = int(rng.choice([1, 2, 3, 5, 8]))
+        total = int(rng.integers(1, 6))
+        lines.append("bwd d %d %d %d" % (n, n, batch))
+        elems = []
+        for b in range(batch):
+            rows = rng.multinomial(total, np.ones(n) / n)
+            cols = rng.multinomial(total, np.ones(n) / n)
+            A = rng.normal(size=(n, n)) + 1j * rng.normal(size=(n, n))
+            cot = complex(rng.normal(), rng.normal())
+            lines.append(" ".join(str(int(r)) for r in rows))
+            lines.append(" ".join(str(int(c)) for c in cols))
+            lines.append(" ".join("%.17g %.17g" % (z.real, z.imag) for z in A.ravel()))
+            lines.append("%.17g %.17g" % (cot.real, cot.imag))
+            elems.append({"kind": "grad", "prec": "d", "A": A, "rows": rows.copy(), "cols": cols.copy(), "cot": cot})
+        if meta is not None:
+            meta.append({"kind": "bwd", "prec": "d", "batch": batch, "elements": elems})
+        n_cases += 1
+        A, rows, cols, kind = perm_case(rng, "many-modes")
+        if A.shape[0] and A.shape[1]:
+            lines.append("ffi d %d %d" % A.shape)
+            lines.append(" ".join(str(int(r)) for r in rows))
+            lines.append(" ".join(str(int(c)) for c in cols))
+            lines.append(" ".join("%.17g %.17g" % (z.real, z.imag) for z in A.ravel()))
+            if meta is not None:
+                meta.append({"kind": "perm", "prec": "d", "A": A, "rows": rows.copy(), "cols": np.asarray(cols).copy()})
+            n_cases += 1
     with open(path, "w") as fh:
         fh.write("%d\n" % n_cases + "\n".join(lines) + "\n")
     return n_cases
@@ -546,7 +576,8 @@ def driver_case_envelopes(m):
     """Rounding envelopes (one per output value) of a driver case, see vf/refs/combinatorial.py."""
     from vf.refs import combinatorial as R
 
-    A, rows, cols = m["A"], m["rows"], m["cols"]
+    if m["kind"] != "bwd":
+        A, rows, cols = m["A"], m["rows"], m["cols"]
 
     def env(r, c):
         if sum(r) != sum(c):
@@ -555,6 +586,11 @@ def driver_case_envelopes(m):
             return 1.0
         return float(max(R.perm_multiplicity(A, r, c)[1], R.glynn_envelope(A, r, c)))
 
+    if m["kind"] == "bwd":
+        out = []
+        for e in m["elements"]:
+            out.extend(abs(e["cot"]) * x for x in driver_case_envelopes(e))
+        return out
     if m["kind"] == "perm":
         return [env(rows, cols)]
     if m["kind"] == "laplace":
@@ -594,6 +630,8 @@ def run_tsan(ctx, rng, spec):
             env = dict(os.environ)
             env["VERIF_HWC"] = str(hwc)
             env["TSAN_OPTIONS"] = "halt_on_error=0 report_signal_unsafe=0 exitcode=0"
+            # threads of the batched backward loop (omp_get_max_threads of the fork-join shim)
+            env["OMP_NUM_THREADS"] = str([1, 3, 8][(int(hwc) + int(callers)) % 3])
             t0 = time.time()
             try:
                 r = subprocess.run([exe, casefile, str(callers)], env=env, stdout=subprocess.PIPE, stderr=subprocess.PIPE,
@@ -612,6 +650,13 @@ def run_tsan(ctx, rng, spec):
             if r.returncode != 0:
                 ctx.viol("tsan-driver-crash", "driver exited with %d: %s" % (r.returncode, r.stderr[-500:]), {"kernel": "tsan-driver", "hwc": hwc})
                 continue
+            mb = re.search(r"BATCH_ELEMENTS (\d+)\s+BATCH_MISMATCHES (\d+)", r.stdout)
+            if mb:
+                ctx.c["tsan_batched_bwd_elements"] += int(mb.group(1))
+                if int(mb.group(2)) > 0:
+                    ctx.c["batch_mismatches"] += int(mb.group(2))
+                    ctx.viol("batched-backward-differs-from-single", "%s of %s batch elements of the FFI backward handler differ from cot * grad_perm of the element alone (hwc=%d, OMP_NUM_THREADS=%s)"
+                             % (mb.group(2), mb.group(1), hwc, env["OMP_NUM_THREADS"]), {"kernel": "tsan-driver", "hwc": hwc, "callers": callers})
             m = re.search(r"CALLER_MISMATCHES (\d+)", r.stdout)
             if m and int(m.group(1)) > 0:
                 ctx.c["caller_mismatches"] += int(m.group(1))
